@@ -54,6 +54,11 @@ http://www.hyperelliptic.org/efd. Там же можно найти соглаш
 #define ecpSeemsOn3(a, ec)\
 	(ecpSeemsOnA(a, ec) && zmIsIn(ecZ(a, (ec)->f->n), (ec)->f))
 
+#define ecpSetO(a, ec)\
+	(qrSetUnity(ecX(a), (ec)->f),\
+		qrSetUnity(ecY(a, (ec)->f->n), (ec)->f),\
+		qrSetZero(ecZ(a, (ec)->f->n), (ec)->f))
+
 /*
 *******************************************************************************
 Якобиановы координаты:
@@ -211,7 +216,7 @@ static void ecpDblJ(word b[], const word a[], const ec_o* ec, void* stack)
 	// za == 0 или ya == 0? => b <- O
 	if (qrIsZero(ecZ(a, n), ec->f) || qrIsZero(ecY(a, n), ec->f))
 	{
-		qrSetZero(ecZ(b, n), ec->f);
+		ecpSetO(b, ec);
 		return;
 	}
 	// t1 <- za^2
@@ -276,7 +281,7 @@ static void ecpDblJA3(word b[], const word a[], const ec_o* ec, void* stack)
 	// za == 0 или ya == 0? => b <- O
 	if (qrIsZero(ecZ(a, n), ec->f) || qrIsZero(ecY(a, n), ec->f))
 	{
-		qrSetZero(ecZ(b, n), ec->f);
+		ecpSetO(b, ec);
 		return;
 	}
 	// t1 <- za^2
@@ -341,7 +346,7 @@ static void ecpDblAJ(word b[], const word a[], const ec_o* ec, void* stack)
 	// ya == 0? => b <- O
 	if (qrIsZero(ecY(a, n), ec->f))
 	{
-		qrSetZero(ecZ(b, n), ec->f);
+		ecpSetO(b, ec);
 		return;
 	}
 	// t1 <- xa^2 [X1^2 = XX]
@@ -456,7 +461,7 @@ static void ecpAddJ(word c[], const word a[], const word b[], const ec_o* ec,
 			ecpDblJ(c, c == a ? b : a, ec, stack);
 		// t3 != t4 => a == -b => c <- O
 		else
-			qrSetZero(ecZ(c, n), ec->f);
+			ecpSetO(c, ec);
 		return;
 	}
 	// zc <- zc t1 [((Z1 + Z2)^2 - Z1Z1 - Z2Z2)H = Z3]
@@ -546,7 +551,7 @@ static void ecpAddAJ(word c[], const word a[], const word b[], const ec_o* ec,
 			ecpDblAJ(c, b, ec, stack);
 		// t2 != 0 => c <- O
 		else
-			qrSetZero(ecZ(c, n), ec->f);
+			ecpSetO(c, ec);
 		return;
 	}
 	// zc <- t1 za
